@@ -506,6 +506,39 @@ func propC15(r *Run) {
 			small++
 		}
 	}
+	// small scope: "isoforms" — two different two-segment joins with the same 5' end, 3' end and
+	// spliced length (on either strand) under one locator: regions that any summary of a region
+	// by (head, tail, length) confuses (seeded changes C15-b, C08-f, C09-f)
+	iso := 0
+	for a := 1; a <= 8; a++ {
+		for b := a + 1; b <= 9; b++ {
+			for a2 := a + 1; a2 <= 8; a2++ {
+				b2 := b + (a2 - a)
+				if b2 > 9 || b2 <= a2 {
+					continue
+				}
+				if !thorough && r.rng.intn(4) != 0 {
+					continue
+				}
+				var la, lb gts.Location = gts.Joined{gts.Range(0, a), gts.Range(b, 10)}, gts.Joined{gts.Range(0, a2), gts.Range(b2, 10)}
+				if (a+b)%3 == 0 {
+					la, lb = gts.Complemented{Location: la}, gts.Complemented{Location: lb}
+				}
+				ff := gts.FeatureSlice{}
+				ff = ff.Insert(gts.Feature{Key: "gene", Loc: la, Props: gts.Props{}})
+				ff = ff.Insert(gts.Feature{Key: "gene", Loc: lb, Props: gts.Props{}})
+				circ := (a+b2)%2 == 0
+				s := c15Faithful(gts.New(nil, ff, []byte("acgtnryacg")), circ)
+				if s == nil {
+					r.count("skipped/generated-record-not-stable")
+					continue
+				}
+				records = append(records, rec{s, circ, "small-scope/isoforms"})
+				iso++
+			}
+		}
+	}
+	r.count(fmt.Sprintf("records/small-scope/isoforms=%d", iso))
 	r.exhaustive = thorough
 
 	var cases []c15Case
